@@ -56,7 +56,7 @@ var discontinuous = map[string]bool{"volume.Mfi": true, "volume.Obv": true, "vol
 // (fractional coin volumes, volumes in millions of shares).
 var scalePairs = [][2]int{{-4, 2}, {2, 10}, {10, -4}, {2, 0}, {0, 2}, {-38, -30}, {40, 30}, {0, -30}}
 
-func c18Indicator(cc *run.Case, ind *reg.Indicator, cfg reg.Cfg, class string, n int) {
+func c18Indicator(cc *run.Case, ind *reg.Indicator, cfg reg.Cfg, class string, n int) bool {
 	bars := gen.Bars(cc.R, class, n)
 	inputs := indInputs(ind, bars, nil)
 	inst := ind.New(cfg)
@@ -76,7 +76,7 @@ func c18Indicator(cc *run.Case, ind *reg.Indicator, cfg reg.Cfg, class string, n
 			f := math.Ldexp(1, a*d.P+b*d.V)
 			if len(got[j]) != len(base[j]) {
 				cc.Viol("", fmt.Sprintf("%s %v output %d: %d values on the original series, %d on the rescaled one", ind.Name, cfg, j, len(base[j]), len(got[j])), nil)
-				return
+				return false
 			}
 			for k := range base[j] {
 				want := base[j][k] * f
@@ -90,7 +90,7 @@ func c18Indicator(cc *run.Case, ind *reg.Indicator, cfg reg.Cfg, class string, n
 				cc.Viol(key, fmt.Sprintf("%s %v output %d (%s) index %d: prices x2^%d, volumes x2^%d should scale the value exactly by 2^%d (homogeneity degree %d/%d): %.17g became %.17g, expected %.17g",
 					ind.Name, cfg, j, ind.Out[j], k, a, b, a*d.P+b*d.V, d.P, d.V, base[j][k], g, want),
 					map[string]any{"indicator": ind.Name, "cfg": cfg, "class": class, "n": n, "a": a, "b": b, "output": j, "k": k, "inputs": jsonSafe(clip(inputs, 60))})
-				return
+				return false
 			}
 			cc.Count("values_compared_bit_exact", int64(len(base[j])))
 		}
@@ -155,14 +155,29 @@ func c18Indicator(cc *run.Case, ind *reg.Indicator, cfg reg.Cfg, class string, n
 			key := devKeyFor(ind, cfg, w, inputs, base, scaledIn, got)
 			cc.Viol(key, fmt.Sprintf("%s %v output %d index %d: prices x%g, volumes x%g: got %s, homogeneity predicts %s (tolerance %.3g)", ind.Name, cfg, res.Bad.Output, res.Bad.K, f10[0], f10[1], res.Bad.ActualS, res.Bad.ExpectS, res.Bad.Tol),
 				map[string]any{"indicator": ind.Name, "cfg": cfg, "class": class, "n": n, "inputs": jsonSafe(clip(inputs, 60))})
-			return
+			return false
 		}
 	}
 	cc.Distinct(fmt.Sprintf("%s/%v/%s", ind.Name, cfg, class))
+	return true
 }
 
+// settle is a series class of this check only: a walk and then a halt that
+// outlasts every average, so that the averages a strategy compares converge
+// to within rounding of each other and of the price. What the comparison says
+// there is decided by the last bits - which a power-of-two unit leaves alone.
+const settle = "settle"
+
 func c18Strategy(cc *run.Case, ns namedStrat, class string, n int) {
-	bars := gen.Bars(cc.R, class, n)
+	var bars []gen.Bar
+	if class == settle {
+		bars = gen.Bars(cc.R, gen.Walk2, n)
+		for last := bars[len(bars)-1]; len(bars) < n+260; {
+			bars = append(bars, last)
+		}
+	} else {
+		bars = gen.Bars(cc.R, class, n)
+	}
 	base := runStrat(ns.New(), reg.Snaps(bars))
 	nonHold := 0
 	for _, a := range base {
@@ -200,9 +215,14 @@ func c18(ctx *run.Ctx) {
 	if !ctx.Quick() {
 		classes = gen.OHLCVClasses
 	}
-	lengths := []int{-1, 120}
 	for _, ind := range reg.Sorted() {
 		ind := ind
+		lengths := []int{-1, 120}
+		if discontinuous[ind.Name] {
+			// a formula with branches keeps state across them: what a branch
+			// taken early does to a value may only show much later
+			lengths = append(lengths, 500)
+		}
 		ctx.Count("cmp:"+ind.Name, 0)
 		for ci, cfg := range indCfgs(ctx, ind, nrand) {
 			ci, cfg := ci, cfg
@@ -215,7 +235,13 @@ func c18(ctx *run.Ctx) {
 					}
 					n := n
 					ctx.Case(fmt.Sprintf("ind/%s/cfg%d/%s/n%d", ind.Name, ci, class, n), func(cc *run.Case) {
-						c18Indicator(cc, ind, cfg, class, n)
+						ok := c18Indicator(cc, ind, cfg, class, n)
+						if discontinuous[ind.Name] {
+							// which branch a bar takes depends on the series: several per case
+							for rep := 0; rep < 5 && ok; rep++ {
+								ok = c18Indicator(cc, ind, cfg, class, n)
+							}
+						}
 						if cc.WantSample() && ci == 1 && class == gen.Walk2 {
 							cc.Sample(map[string]any{"indicator": ind.Name, "cfg": cfg, "class": class, "n": n, "scale_pairs_log2": scalePairs, "degrees": ind.Deg})
 						}
@@ -234,7 +260,7 @@ func c18(ctx *run.Ctx) {
 	all := append(append([]namedStrat(nil), base...), compoundStrats(ctx, small, ctx.Pick(6, 24))...)
 	for si, ns := range all {
 		ns := ns
-		for _, class := range classes {
+		for _, class := range append(append([]string(nil), classes...), settle) {
 			class := class
 			ctx.Case(fmt.Sprintf("strat/%d/%s", si, class), func(cc *run.Case) {
 				c18Strategy(cc, ns, class, 2*ns.Warm+80)
